@@ -18,6 +18,31 @@ CHECKS = {
             "is checked by the 3-way correspondence on every run, not yet proved in Coq. No axioms.",
             "Rocq/Coq proof (parametric in the matcher) + 3-way differential correspondence (code / model / git-style reference)",
             "DESIGN.md section 6 C03"),
+    "C04": (True,
+            'Coq invariant proof over the small-step model of the job task: for every label sequence (any sends, any select! choices, any timing), every child behaviour and every spawn/signal/kill fault pattern, and every code variant, the spawned-and-unreaped children are exactly the child the state calls Running, hence at most one; spawns only happen from a state with none. The model is validated against the real start_job task: the event log and ticket times of ~850 histories per run must be among the outcomes the model allows.',
+            'Trusted: Coq kernel, translator (API table), harness (SimChild through the public spawn hook, paused tokio clock). tokio select!/mpsc/timers, process-wrap and the OS are modelled: select! as a free choice among ready branches, kill = start_kill + wait. The hand-written task model (Job/JobModel.v) is tied to task.rs / priority.rs / state.rs by the membership correspondence. No axioms.',
+            'Rocq/Coq invariant proof by induction over labels + membership correspondence on a paused-clock runtime',
+            "DESIGN.md section 5.4 and 6 C04"),
+    "C06": (True,
+            'Coq proofs on the job task model: a graceful control signals at once and arms the timer for now+grace without killing; the forced stop is enabled only at or after the deadline and (repaired code) immediately at it, killing and reaping at that instant; no normal control is taken while a timer is armed; the restart marker exists only together with its armed timer (so the restart happens once) for all API-shaped label sequences. Refutation witness for the pinned double restart. Same membership correspondence as C04 plus timing monitors on unambiguous histories.',
+            'Trusted: Coq kernel, translator (API table), harness (SimChild through the public spawn hook, paused tokio clock). tokio select!/mpsc/timers, process-wrap and the OS are modelled: select! as a free choice among ready branches, kill = start_kill + wait. The hand-written task model (Job/JobModel.v) is tied to task.rs / priority.rs / state.rs by the membership correspondence. No axioms.',
+            'Rocq/Coq proof (step lemmas + invariant over label sequences) + membership correspondence',
+            "DESIGN.md section 5.4 and 6 C06"),
+    "C07": (True,
+            "Coq proof that no ticket is ever lost: for every API-shaped label sequence, child behaviour and fault pattern, each accepted control's flag is raised, or still held (queue, grace timer, wait-for-end list, restart marker), or the job has ended; each control is executed at most once; a raised flag leaves no waiter pending for any number of waiters (Flag model). Safety half only: eventual release relies on C06/C10 and runtime fairness (partial). Refutation witnesses for the three repaired leaks. Correspondence with 1-4 waiter tasks per ticket.",
+            'Trusted: Coq kernel, translator (API table), harness (SimChild through the public spawn hook, paused tokio clock). tokio select!/mpsc/timers, process-wrap and the OS are modelled: select! as a free choice among ready branches, kill = start_kill + wait. The hand-written task model (Job/JobModel.v) is tied to task.rs / priority.rs / state.rs by the membership correspondence. No axioms.',
+            'Rocq/Coq invariant proof (flag accounting) + Flag model + membership correspondence',
+            "DESIGN.md section 5.4 and 6 C07"),
+    "C09": (True,
+            'Coq refinement proof: every simple control arm of the detailed task model (start, stop, try-restart, signal, wait-for-end, run, hook set/unset, delete) yields the state, the effect sequence and the ticket resolution of a small reference machine written from the rustdoc, for every state, environment and fault; named corollaries (start no-op while running, restart fresh, hook once per spawn, ...). Graceful controls are covered by C06/C07. The implementation is compared with the model (membership) and, for settled simple histories, with an independent sequential reference.',
+            'Trusted: Coq kernel, translator (API table), harness (SimChild through the public spawn hook, paused tokio clock). tokio select!/mpsc/timers, process-wrap and the OS are modelled: select! as a free choice among ready branches, kill = start_kill + wait. The hand-written task model (Job/JobModel.v) is tied to task.rs / priority.rs / state.rs by the membership correspondence. No axioms.',
+            'Rocq/Coq refinement to a reference machine + differential comparison against two references',
+            "DESIGN.md section 5.4 and 6 C09"),
+    "C10": (True,
+            'Coq proofs: accepted = executed ++ queued, per priority and in order, for every label sequence (any number of senders), so controls run in send order, at most once, and a taken control implies all earlier ones of that priority; at every decision of the repaired task urgent beats high beats normal and normal waits for the grace timer; API priority table translated from job.rs. Refutation witness for the pinned parked select!. Burst-heavy correspondence.',
+            'Trusted: Coq kernel, translator (API table), harness (SimChild through the public spawn hook, paused tokio clock). tokio select!/mpsc/timers, process-wrap and the OS are modelled: select! as a free choice among ready branches, kill = start_kill + wait. The hand-written task model (Job/JobModel.v) is tied to task.rs / priority.rs / state.rs by the membership correspondence. No axioms.',
+            'Rocq/Coq invariant proof (queue bookkeeping) + decision lemma + membership correspondence',
+            "DESIGN.md section 5.4 and 6 C10"),
     "C11": (True,
             "Coq proofs, for an arbitrary glob matcher: GlobsetFilterer::check_event equals the property's rule written as a boolean formula; "
             "no-path events and whitelisted files pass; an ignore match overrides any filter; the empty configuration passes everything; inserting "
